@@ -4,7 +4,7 @@
 //! second, longer wait before it is reported.
 //!
 //! stress --scenario <a,b,…> --seconds <n> --seed <n> --report <file>
-//! scenarios: hammer (C01 C02 C03 C06), askjoin (C03), late (C01 C10), blocking (C17 + C01 C02 C03 C13), ids (C11)
+//! scenarios: hammer (C01 C02 C03 C06), askjoin (C03), late (C01 C10), blocking (C17 + C01 C02 C03 C13), ids (C11), idlewin (C08)
 
 use rsactor::{spawn, spawn_with_mailbox_capacity, Actor, ActorRef, ActorWeak, Message};
 use std::sync::atomic::{AtomicBool, AtomicU64, Ordering::SeqCst};
@@ -613,6 +613,166 @@ fn jstr(s: &str) -> String {
     format!("{:?}", s)
 }
 
+// ------------------------------------------------------------------------------------------------ idlewin
+/// on_run scripts whose last synchronous segment produces mail for the actor itself (or lets other
+/// threads' mail land) — the arrival pattern the paused single-thread correspondence cannot produce.
+struct I {
+    log: Arc<Mutex<Vec<String>>>,
+    plan: Vec<(u32, char, bool)>, // per pass: self-tells, outcome c/d/e, yield first
+    pass: usize,
+}
+struct K(u32);
+impl Actor for I {
+    type Args = (Arc<Mutex<Vec<String>>>, Vec<(u32, char, bool)>);
+    type Error = String;
+    async fn on_start(a: Self::Args, _: &ActorRef<Self>) -> Result<Self, String> {
+        Ok(I { log: a.0, plan: a.1, pass: 0 })
+    }
+    async fn on_run(&mut self, w: &ActorWeak<Self>) -> Result<bool, String> {
+        let k = self.pass;
+        self.pass += 1;
+        let (n, out, yield_first) = self.plan.get(k).copied().unwrap_or((0, 'c', true));
+        self.log.lock().unwrap().push(format!("run {k}"));
+        if yield_first {
+            tokio::task::yield_now().await;
+        }
+        if let Some(me) = w.upgrade() {
+            for j in 0..n {
+                let _ = me.tell(K(1000 * (k as u32 + 1) + j)).await;
+            }
+        }
+        if k >= self.plan.len() {
+            // beyond the plan: keep idling slowly
+            tokio::time::sleep(Duration::from_millis(1)).await;
+        }
+        // a pass that loses the select to an arriving message is dropped at an await point above and
+        // never gets here: only completed passes count
+        self.log.lock().unwrap().push(format!("ret {k} {out}"));
+        match out {
+            'c' => Ok(true),
+            'd' => Ok(false),
+            _ => Err("scripted on_run error".into()),
+        }
+    }
+    async fn on_stop(&mut self, _: &ActorWeak<Self>, k: bool) -> Result<(), String> {
+        self.log.lock().unwrap().push(format!("stop {k}"));
+        Ok(())
+    }
+}
+impl Message<K> for I {
+    type Reply = u32;
+    async fn handle(&mut self, m: K, _: &ActorRef<Self>) -> u32 {
+        self.log.lock().unwrap().push(format!("h {}", m.0));
+        m.0
+    }
+}
+
+fn idlewin_check(rep: &mut Report, what: &str, plan: &[(u32, char, bool)], log: &[String], served_after: bool) {
+    // (1) after Ok(false) the body never executes again; (2) mail produced during a pass is handled before the next pass
+    let runs: Vec<usize> = log.iter().filter_map(|l| l.strip_prefix("run ").map(|x| x.parse().unwrap())).collect();
+    let rets: Vec<(usize, char)> = log.iter().filter_map(|l| l.strip_prefix("ret ")).map(|x| { let mut it = x.split(' '); (it.next().unwrap().parse().unwrap(), it.next().unwrap().chars().next().unwrap()) }).collect();
+    if let Some(d) = rets.iter().find(|r| r.1 == 'd').map(|r| r.0) {
+        if runs.iter().any(|r| *r > d) {
+            rep.v("C08", format!("{what}: on_run pass {d} returned Ok(false) but the body executed again (passes {runs:?}); plan {plan:?}; log {log:?}"));
+        }
+        if served_after && !log.iter().any(|l| l == "h 7") {
+            rep.v("C08", format!("{what}: message sent after on_run was disabled was not served; log {log:?}"));
+        }
+    }
+    for (k, p) in plan.iter().enumerate() {
+        for j in 0..p.0 {
+            let id = format!("h {}", 1000 * (k as u32 + 1) + j);
+            let hp = log.iter().position(|l| *l == id);
+            let np = log.iter().position(|l| *l == format!("run {}", k + 1));
+            if !rets.iter().any(|r| r.0 == k) {
+                continue;
+            }
+            if let (Some(np), hp) = (np, hp) {
+                if hp.map_or(true, |hp| hp > np) {
+                    rep.v("C08", format!("{what}: message {id} was waiting when pass {k} ended but on_run was polled again first; log {log:?}"));
+                }
+            }
+        }
+    }
+    if let Some(e) = rets.iter().find(|r| r.1 == 'e').map(|r| r.0) {
+        if !log.iter().any(|l| l == "stop false") {
+            rep.v("C08", format!("{what}: on_run pass {e} returned Err but on_stop(killed=false) did not run; log {log:?}"));
+        }
+    }
+}
+
+fn idlewin(rep: &mut Report) {
+    let mut cases = 0u64;
+    let plans: Vec<Vec<(u32, char, bool)>> = vec![
+        vec![(1, 'd', false)],
+        vec![(1, 'd', true)],
+        vec![(0, 'c', true), (1, 'c', false), (1, 'd', false)],
+        vec![(2, 'c', true), (0, 'd', true)],
+        vec![(0, 'd', false)],
+        vec![(1, 'c', false), (1, 'e', false)],
+        vec![(0, 'c', true), (0, 'c', true), (0, 'e', true)],
+    ];
+    for multi in [false, true] {
+        let rt = if multi {
+            tokio::runtime::Builder::new_multi_thread().worker_threads(4).enable_time().build().unwrap()
+        } else {
+            tokio::runtime::Builder::new_current_thread().enable_time().build().unwrap()
+        };
+        for cap in [1usize, 2, 8, 64] {
+            for plan in &plans {
+                if plan.iter().any(|p| p.0 as usize > cap) {
+                    continue;
+                }
+                for senders in [0u32, 3] {
+                    if senders > 0 && plan.iter().any(|p| p.0 > 0) {
+                        continue; // self-tells need the room for themselves
+                    }
+                    cases += 1;
+                    let log = Arc::new(Mutex::new(vec![]));
+                    let plan2 = plan.clone();
+                    let log2 = log.clone();
+                    let res = rt.block_on(async move {
+                        let (r, jh) = spawn_with_mailbox_capacity::<I>((log2, plan2), cap);
+                        let mut tasks = vec![];
+                        for t in 0..senders {
+                            let r2 = r.clone();
+                            tasks.push(tokio::spawn(async move {
+                                for k in 0..40u32 {
+                                    let _ = r2.tell(K(100 + t * 40 + k)).await;
+                                    if k % 5 == 0 { tokio::task::yield_now().await; }
+                                }
+                            }));
+                        }
+                        for t in tasks { let _ = t.await; }
+                        tokio::time::sleep(Duration::from_millis(15)).await;
+                        let served = r.ask(K(7)).await.is_ok();
+                        tokio::time::sleep(Duration::from_millis(5)).await;
+                        let _ = r.stop().await;
+                        let out = tokio::time::timeout(Duration::from_secs(10), jh).await;
+                        (served, out.map(|x| x.map(|res| (res.is_completed(), res.is_runtime_failed()))))
+                    });
+                    let l = log.lock().unwrap().clone();
+                    let what = format!("idle window (cap {cap}, {} runtime, {senders} senders)", if multi { "multi-thread" } else { "current-thread" });
+                    match res {
+                        (served, Ok(Ok((completed, run_failed)))) => {
+                            idlewin_check(rep, &what, plan, &l, served);
+                            let has_err = l.iter().any(|x| x.starts_with("ret ") && x.ends_with(" e"));
+                            if has_err && (completed || !run_failed) {
+                                rep.v("C08 C05", format!("{what}: on_run returned Err but the result is not an on_run failure; plan {plan:?}"));
+                            }
+                            if !has_err && !completed {
+                                rep.v("C08 C05", format!("{what}: no on_run error but the actor did not complete; plan {plan:?}"));
+                            }
+                        }
+                        (_, other) => rep.v("C08", format!("{what}: the actor did not end within 10 s or panicked: {other:?}; plan {plan:?}; log {l:?}")),
+                    }
+                }
+            }
+        }
+    }
+    rep.s("idlewin", format!("cases={cases}"));
+}
+
 fn main() {
     harness::quiet_panics();
     let args: Vec<String> = std::env::args().collect();
@@ -638,6 +798,7 @@ fn main() {
             "late" => late(&mut rep),
             "blocking" => blocking(&mut rep),
             "ids" => ids(&mut rep),
+            "idlewin" => idlewin(&mut rep),
             o => panic!("unknown scenario {o}"),
         }
     }
